@@ -20,6 +20,7 @@ import (
 
 	"github.com/anishathalye/porcupine"
 	"github.com/pion/transport/v3/packetio"
+	"verifharness/internal/gstate"
 	"verifharness/internal/res"
 )
 
@@ -38,10 +39,10 @@ type hist struct {
 type pkt []byte
 
 type model struct {
-	q          []pkt
-	size       int
-	lc, ls     int
-	closed     bool
+	q      []pkt
+	size   int
+	lc, ls int
+	closed bool
 }
 
 func fillBytes(n int, seed uint32) []byte {
@@ -648,7 +649,35 @@ func main() {
 		n /= *nshard
 		mdl := queueModel()
 		for i := 0; i < n; i++ {
-			ops, corrupt := concHistory(rng, r)
+			// a history ends when every writer has returned, Close has returned and every reader has seen an error; if it
+			// does not end within 20 s, and the goroutines that are left sit inside packetio (parked), the buffer has
+			// wedged them (for example a lock left held by a panic, or a reader that Close did not release)
+			type hres struct {
+				ops     []porcupine.Operation
+				corrupt string
+			}
+			hc := make(chan hres, 1)
+			go func() { o, c := concHistory(rng, r); hc <- hres{o, c} }()
+			var ops []porcupine.Operation
+			var corrupt string
+			select {
+			case h := <-hc:
+				ops, corrupt = h.ops, h.corrupt
+			case <-time.After(20 * time.Second):
+				var stuck []string
+				for _, g := range gstate.Snapshot() {
+					if f := g.Innermost("pion/transport/v3/packetio."); f != "" && gstate.Blocked(g.State) {
+						stuck = append(stuck, f+" ["+g.State+"]")
+					}
+				}
+				if len(stuck) > 0 {
+					r.Violate("conc-stuck", fmt.Sprintf("a concurrent history did not finish within 20 s (every writer done, Close called): goroutines are parked inside the buffer: %v", stuck), nil)
+				} else {
+					r.Inconc("concurrent history did not finish within 20 s, nothing parked inside packetio")
+				}
+				r.Write(*out)
+				os.Exit(0)
+			}
 			r.Eval(1)
 			r.Count("conc_ops", int64(len(ops)))
 			sig := ""
